@@ -127,8 +127,12 @@ def gen_workload(rng, malformed=False, batch=False, dag=False, resolve=False):
                 node["conditional"] = False   # spelled out: the loader must read the value, not the key
             if nd["terminal"]:
                 node["terminal"] = True
-            elif rng.random() < 0.3:
-                node["terminal"] = False
+            else:
+                x_ = rng.random()
+                n_parents = sum(1 for _a, cs_ in spec["mapping"] if lab in cs_)
+                # spelled out on (most) ordinary multi-parent joins: that is where a wrongly read flag changes behaviour
+                if x_ < 0.3 or (n_parents >= 2 and x_ < 0.8):
+                    node["terminal"] = False
             if nd["prob"] != 1000:
                 node["probability"] = nd["prob"] / 1000.0
             nodes.append(node)
